@@ -71,6 +71,7 @@ GAPS = [1, 500, 1001]
 
 def points(tier: str) -> List[Dict[str, Any]]:
     names = [x[0] for x in alphabet()]
+    has_qu = {x[0]: x[3] for x in alphabet()}
     events = [(g, n) for g in GAPS for n in names]
     pts: List[Dict[str, Any]] = []
     depth = 2 if tier == "quick" else 3
@@ -90,6 +91,13 @@ def points(tier: str) -> List[Dict[str, Any]]:
         pts.append({"age": "recent", "jitter": 0.0, "events": [e], "raising": True})
     for seq in itertools.product(resp, repeat=2):
         pts.append({"age": "recent", "jitter": 0.0, "events": list(seq), "raising": True})
+    # copies that arrive a little later than the original, around a whole second of the clock
+    for age in ("recent", "old"):
+        for before, after in ((100, 200), (100, 50), (999_900, 200), (500_000, 700_000), (1, 998_000)):
+            for e in events:
+                if after >= 500_000 and has_qu[e[1]]:
+                    continue  # (a late copy of a QU query is a second query for all practical purposes: the open finding)
+                pts.append({"age": age, "jitter": 0.0, "events": [e], "before_us": before, "copy_after_us": after})
     # the same on an IPv6 socket (source addresses are 4-tuples there)
     for age in ("recent", "old"):
         for e in events:
@@ -152,7 +160,16 @@ def execute(p: Dict[str, Any], mode: str) -> Tuple[List[Tuple[float, tuple, byte
             w.advance(gap)
             _, data, port, has_qu = alpha[name]
             times = 2 if mode == "dup-all" or (mode == "dup-qm" and not has_qu) else 1
-            for _ in range(times):
+            if p.get("copy_after_us"):
+                # the copy does not arrive in the very same clock reading: the first arrives `before_us` ahead of a whole
+                # second of the clock, the copy `copy_after_us` later (in every run the clock moves alike)
+                base_ms = (int(w.now_ms // 1000) + 1) * 1000
+                w.advance_to_ms(base_ms - p["before_us"] / 1000)
+            for k in range(2 if p.get("copy_after_us") else times):
+                if p.get("copy_after_us") and k == 1:
+                    w.loop.now_us += p["copy_after_us"]
+                    if times == 1:
+                        break
                 try:
                     proto.datagram_received(data, ("fe80::99", port, 0, 3) if v6 else ("10.0.0.99", port))
                 except RuntimeError as exc:
@@ -193,26 +210,31 @@ def compare(p: Dict[str, Any]) -> Tuple[Optional[str], Optional[str], str]:
     ref, dup = Counter(dqm[0]), Counter(dall[0])
     extra, missing = dup - ref, ref - dup
     finding = None
+    lag = p.get("copy_after_us", 0) / 1000  # the copy (and whatever it causes) comes this much after the original
+
+    def same(t2: float, t: float) -> bool:
+        return abs(t2 - t) < 0.002 or abs(t2 - (t - lag)) < 0.002
+
     for (t, dest, data), n in extra.items():
         if dest[0] not in ("224.0.0.251", "ff02::fb"):
-            if (t, dest, data) in ref:
+            if any(same(t2, t) and dest2 == dest and data2 == data for (t2, dest2, data2) in ref):
                 continue  # a query containing a QU question may be answered by unicast twice
             # the second answer need not be byte-identical (the first may have been assembled with a truncated
             # predecessor): it may only repeat records the first unicast reply to that querier carried in that instant
             first = set()
             for (t2, dest2, data2) in ref:
-                if t2 == t and dest2 == dest:
+                if same(t2, t) and dest2 == dest:
                     first |= {repr(r) for r in wire.decode(data2).records()}
             if first and {repr(r) for r in wire.decode(data).records()} <= first:
                 continue
             return f"doubling a QU query produced a new unicast datagram at +{t} to {dest}: {wire.decode(data).records()}", None, obs
         # a multicast difference: only the shapes of the known finding are tolerated (and reported)
-        if (t, dest, data) in ref:
+        if any(same(t2, t) and dest2 == dest and data2 == data for (t2, dest2, data2) in ref):
             finding = f"multicast reply of {len(data)} bytes sent twice at +{t} ms"
             continue
         same_instant = set()
         for (t2, dest2, data2) in ref:
-            if t2 == t and dest2 == dest:
+            if same(t2, t) and dest2 == dest:
                 same_instant |= {repr(r) for r in wire.decode(data2).records()}
         if same_instant and {repr(r) for r in wire.decode(data).records()} <= same_instant:
             # not byte-identical because the first reply also answered a truncated predecessor of the query
@@ -221,7 +243,7 @@ def compare(p: Dict[str, Any]) -> Tuple[Optional[str], Optional[str], str]:
         # the same records, sent later by at most 500 ms (the QM part was queued twice)?
         recs = Counter(map(repr, wire.decode(data).records()))
         moved = [k for k in missing if k[1] == dest and Counter(map(repr, wire.decode(k[2]).records())) == recs
-                 and 0 <= t - k[0] <= 500]
+                 and 0 <= t - k[0] <= 500 + lag]
         if moved:
             finding = f"aggregated multicast reply moved from +{moved[0][0]} to +{t} ms"
             missing = missing - Counter({moved[0]: 1})
